@@ -28,7 +28,7 @@ def one(d):
         return meta["id"], "own" if meta["caught_by_own_property"] else "MISS own; by " + ",".join(caught)
     finally:
         run(["git", "-C", "/repo", "worktree", "remove", "--force", wt], "/"); shutil.rmtree(wt, ignore_errors=True)
-dirs = sorted(glob.glob("/verif/seeded/*/"))
+dirs = sorted(glob.glob(os.environ.get("SEED_GLOB", "/verif/seeded/*/")))
 with ThreadPoolExecutor(6) as ex:
     for sid, r in ex.map(one, dirs):
         if r != "own":
